@@ -1,4 +1,5 @@
 import Pendulum.Proofs.Dur
+import Pendulum.Proofs.DurGen
 import Pendulum.Model.DurFloat
 /-! # C09 — Duration normalisation is consistent with timedelta and with itself
 
@@ -193,5 +194,33 @@ range it coincides with the exact model `mk` the theorems are about (assumption,
 example : (Fl.mk { s := 8589934591, us := 999999 }).1.micros = (mk { s := 8589934591, us := 999999 }).micros := by decide
 example : (Fl.mk { s := 8589934592, us := 1 }).1.micros = 2 ∧ (mk { s := 8589934592, us := 1 }).micros = 1 := by decide
 example : (Fl.mk { y := -201, mo := 383, us := 7652420990549359 }).1.micros = 549358 := by decide
+
+/-! ## tie to the source: the generated translation of `Duration.__new__` and of the component properties
+
+`Pendulum.Gen.Duration` is regenerated from /repo/src/pendulum/duration.py by tools/gen_duration.py on every run
+(since the exactness fix `__new__` normalises with integer arithmetic on the native slots, so it translates
+statement by statement).  These theorems re-check, against what the code says now, that the model `mk` the
+theorems above are about *is* the code: a change to the normalisation either keeps them provable or breaks the build. -/
+
+/-- the positional arguments `__new__` hands to `timedelta.__new__` denote the model's native value, and the slot
+    assignments that follow, run on that value's native slots, produce exactly the model's fields -/
+theorem new_source_eq_model (a : Args) :
+    (let (d, s, us, ms, mi, h, w) := Gen.Duration.new_native_args a.d a.s a.us a.ms a.mi a.h a.w a.y a.mo
+     Td.ofArgs d s us ms mi h w) = (mk a).native ∧
+    Gen.Duration.new_slots (Td.days (mk a).native) (Td.seconds (mk a).native) (Td.micros (mk a).native)
+      a.d a.s a.us a.ms a.mi a.h a.w a.y a.mo
+    = ((mk a).total, (mk a).years, (mk a).months, (mk a).weeks, (mk a).days, (mk a).rdays, (mk a).seconds,
+       (mk a).micros) :=
+  ⟨DurGen.new_native_eq a, DurGen.new_slots_eq a⟩
+example : Gen.Duration.new_slots (-1) 86399 999999 0 0 (-1) 0 0 0 0 0 0 = ((-1 : Int), (0 : Int), (0 : Int), (0 : Int), (0 : Int), (0 : Int), (0 : Int), (-1 : Int)) := by rfl
+
+/-- the cached component properties `hours`, `minutes`, `remaining_seconds` as written in the source are the
+    model's, for every `_seconds` value -/
+theorem accessors_source_eq_model (d : D) :
+    Gen.Duration.hours d.seconds = hours d ∧ Gen.Duration.minutes d.seconds = minutes d ∧
+    Gen.Duration.remaining_seconds d.seconds = remainingSeconds d :=
+  ⟨DurGen.hours_eq d, DurGen.minutes_eq d, DurGen.remaining_seconds_eq d⟩
+example : Gen.Duration.hours (-86399) = -23 ∧ Gen.Duration.minutes (-86399) = -59 ∧
+    Gen.Duration.remaining_seconds (-86399) = -59 := by decide
 
 end Pendulum.Props.C09
